@@ -24,4 +24,22 @@ def reviewedSetSites : List (String × String × String × String × String) := 
    "set of tuples of ints: seed-free hashes; only builds a dict keyed by ring")
 ]
 
+/-- what the keys of the container iterated at a site are -/
+inductive KeyKind where
+  | int        -- atom numbers: CPython's set of ints, modelled by `Py/IntSet.lean`
+  | intTuple   -- rings as tuples of atom numbers: `hash(tuple of int)` is `Py.pyHashTuple`, seed free
+  deriving DecidableEq, Repr
+
+/-- (file, function, variable, key kind): reviewed by reading the code; the run-time replay of the sites
+(`harness/props/c19_sets.py`) checks on every run that the functions listed with `int` only ever put ints into the
+sets whose history it logs, and that only the functions listed with `intTuple` put anything else -/
+def reviewedSetSiteKeys : List (String × String × String × KeyKind) := [
+  ("algorithms/smiles.py", "Smiles._smiles", "atoms_set", .int),
+  ("algorithms/rings.py", "Rings.rings_graph", "atoms", .int),
+  ("algorithms/rings.py", "_connected_components", "atoms", .int),
+  ("algorithms/rings.py", "_bfs", "atoms", .int),
+  ("algorithms/rings.py", "_is_condensed_ring", "common", .int),
+  ("algorithms/rings.py", "_rings_filter", "seen_rings", .intTuple)
+]
+
 end ChythonModel.Spec
